@@ -74,6 +74,8 @@ struct vpair_opts {
     struct xcm_attr_map *conn_attrs, *server_attrs, *accept_attrs;   /* optional, added to the creation maps */
     const char *server_addr;      /* optional: use this address instead of the default loopback one */
     const char *connect_addr;     /* optional: the client connects to this address instead of the server's local address */
+    void (*pump)(void *); void *pump_arg;   /* optional: called once per establishment round (e.g. an in-process proxy) */
+    int max_rounds;               /* optional: establishment rounds before giving up (default 20000) */
 };
 /* establish client<->accepted over transport tp in non-blocking mode.  server is kept
  * open in *server.  returns 0, or -1 with a reason in why */
